@@ -226,7 +226,7 @@ class SimplicialComplex(Hypergraph):
         for node in members:
             if node not in self._node:
                 if node is None:
-                    raise ValueError("None cannot be a node")
+                    raise XGIError("None cannot be a node")
                 self._node[node] = set()
                 self._node_attr[node] = self._node_attr_dict_factory()
             self._node[node].add(idx)
@@ -307,6 +307,9 @@ class SimplicialComplex(Hypergraph):
             members = frozenset(members)
         except TypeError:
             raise XGIError("The simplex cannot be cast to a frozenset.")
+
+        if None in members:
+            raise XGIError("None cannot be a node")
 
         if not members or self.has_simplex(members):
             return
@@ -478,12 +481,22 @@ class SimplicialComplex(Hypergraph):
         if isinstance(ebunch_to_add, dict):
             faces = []  # container to store subfaces
             for idx, members in ebunch_to_add.items():
+                try:
+                    members = list(members)
+                    if None in frozenset(members):
+                        raise XGIError("None cannot be a node")
+                except TypeError as e:
+                    raise XGIError("Invalid ebunch format") from e
+
                 # check that it does not exist yet (based on members, not ID)
                 if not members or self.has_simplex(members):
                     continue
 
                 if idx in self._edge.keys():  # check that uid is not present yet
-                    warn(f"uid {idx} already exists, cannot add simplex {members}.")
+                    warn(
+                        f"uid {idx} already exists, "
+                        f"cannot add simplex {set(members)}."
+                    )
                     continue
 
                 if max_order is not None:
@@ -564,7 +577,9 @@ class SimplicialComplex(Hypergraph):
             # check if members is iterable before checking it exists
             # to raise meaningful error if not iterable
             try:
-                _ = iter(members)
+                members = list(members)
+                if None in frozenset(members):
+                    raise XGIError("None cannot be a node")
             except TypeError as e:
                 raise XGIError("Invalid ebunch format") from e
 
@@ -597,7 +612,7 @@ class SimplicialComplex(Hypergraph):
                     continue
 
             if idx in self._edge.keys():  # check that uid is not present yet
-                warn(f"uid {idx} already exists, cannot add simplex {members}.")
+                warn(f"uid {idx} already exists, cannot add simplex {set(members)}.")
 
                 try:
                     e = next(new_edges)
